@@ -250,6 +250,45 @@ def check_pair(rep, pr):
         rep.nontrivial.add('pair' + json.dumps(pr, sort_keys=True))
 
 
+def glob_child_wired_upward(rep):
+    """A glob port whose '*' dictionary wires a sub-variable of every child
+    upward to one shared store, next to a compartment that exists because it
+    holds a process: the shared variable holds its default, whatever the order in
+    which the processes are listed."""
+    class Decl(Process):
+        defaults = {'schema': {}}
+
+        def ports_schema(self):
+            return copy.deepcopy(self.parameters['schema'])
+
+        def next_update(self, timestep, states):
+            return {}
+    want = {'agents': {'1': {'store': {'mass': 1}}}, 'shared': 0.5}
+    for order in (('agents', 'environment'), ('environment', 'agents')):
+        rep.evaluations += 1
+        sig = {'kind': 'glob-child-wired-upward', 'order': '/'.join(order)}
+        parts = {
+            'environment': (Decl({'schema': {'agents': {'*': {'local': {'_default': 0.5}}}}}),
+                            {'agents': {'_path': ('agents',),
+                                        '*': {'local': ('..', '..', 'shared')}}}),
+            'agents': ({'1': {'growth': Decl({'schema': {'port': {'mass': {'_default': 1}}}})}},
+                       {'1': {'growth': {'port': ('store',)}}})}
+        try:
+            eng = Engine(processes={k: parts[k][0] for k in order},
+                         topology={k: parts[k][1] for k in order},
+                         initial_state={}, display_info=False, emitter='null')
+            got = eng.state.get_value(condition=lambda n: not isinstance(n.value, Process))
+        except Exception as e:
+            rep.violation(sig, 'C15 a glob port wiring a sub-variable of its children upward to '
+                          'a shared store (processes listed %s) raised %r' % (order, e), {})
+            continue
+        if got != want:
+            rep.violation(sig, 'C15 a glob port wiring a sub-variable of its children upward to '
+                          'a shared store (processes listed %s): the hierarchy holds %r, '
+                          'expected %r' % (order, got, want), {})
+    rep.nontrivial.add('glob-child-wired-upward')
+
+
 def composite_state_and_initial_state(rep):
     """An engine built from a composite that carries a state, with an initial
     state given to the engine as well: every variable either of them names holds
@@ -336,6 +375,8 @@ def run(rep, tier, scratch, only=None):
     if not only:
         rep.guard(composite_state_and_initial_state, rep,
                   what='composite state together with an engine initial state')
+        rep.guard(glob_child_wired_upward, rep,
+                  what='glob children wired upward to a shared store')
     rep.traces = n + len(t['pairs'])
     rep.add_sample({'case': cases[len(cases) // 2]['ports'],
                     'builds': cases[len(cases) // 2]['builds'][:2]})
